@@ -164,7 +164,26 @@ func TestC18Lifetime(t *testing.T) {
 	}
 	rec := vstat.New(propertyID, "lifetime")
 	rec.RunRapid(t, func(rt *rapid.T) {
-		sc := genLife(rt)
+		sc := genLife(rt, "")
+		rec.Current(sc)
+		st, err := runLifeBubble(t, sc)
+		rec.Case(sc, st.nontrivial(), st.labelList()...)
+		if err != nil {
+			rt.Fatalf("%s", rec.Fail(sc, classOf(err), "%v", err))
+		}
+	})
+}
+
+// TestC18Entry: the lifetime machinery aimed at the other entry points of the
+// client (Poll, Impl, Synced, Leaves) over transports whose poll and
+// subscription writes block (entry.go, genLife profile "entry").
+func TestC18Entry(t *testing.T) {
+	if !vstat.Enabled(propertyID) {
+		t.Skip()
+	}
+	rec := vstat.New(propertyID, "entry")
+	rec.RunRapid(t, func(rt *rapid.T) {
+		sc := genLife(rt, "entry")
 		rec.Current(sc)
 		st, err := runLifeBubble(t, sc)
 		rec.Case(sc, st.nontrivial(), st.labelList()...)
@@ -326,7 +345,7 @@ func replayOne(t *testing.T, rf *vstat.ReplayFile) string {
 			return err.Error()
 		}
 		return ""
-	case "lifetime":
+	case "lifetime", "entry":
 		var sc LScenario
 		if err := json.Unmarshal(rf.Scenario, &sc); err != nil {
 			return "bad scenario: " + err.Error()
